@@ -402,6 +402,11 @@ func cmdCheck(args []string) int {
 		}
 		for _, l := range hs.Reach {
 			if !res.Reached[l] {
+				if res.TimeLimit || res.PathLimit {
+					// the exploration was cut short: the witness may lie on a path that was not run
+					incon = append(incon, fmt.Sprintf("%s: reachability witness %q not reached before the exploration budget ran out", res.Name, l))
+					continue
+				}
 				vacuous = true
 				incon = append(incon, fmt.Sprintf("%s: reachability witness %q not reached (vacuous harness)", res.Name, l))
 			}
